@@ -128,3 +128,34 @@ func constParam(p *ssa.Parameter) (*ssa.Const, bool) {
 }
 
 var _ = token.NoPos
+
+// smCovers: f is the scanner's scan method, or a helper outside the pinned
+// vocabulary that is only ever called from such a function: the SM engine
+// executes those helpers in place, so its typestate facts (SM-deref) decide
+// their indices and dereferences exactly as they do for scan itself.
+func smCovers(f *ssa.Function) bool {
+	return smCoversRec(f, map[*ssa.Function]bool{})
+}
+
+func smCoversRec(f *ssa.Function, seen map[*ssa.Function]bool) bool {
+	if f == nil || seen[f] {
+		return false
+	}
+	seen[f] = true
+	if f.Name() == "scan" && f.Signature.Recv() != nil && strings.HasSuffix(funcKey(f), "scanningState).scan") {
+		return true
+	}
+	if !defaultInline(f) {
+		return false
+	}
+	cs := sitesOf(curLoaded)
+	if cs == nil || cs.escapes[f] || len(cs.calls[f]) == 0 {
+		return false
+	}
+	for _, ci := range cs.calls[f] {
+		if !smCoversRec(ci.Parent(), seen) {
+			return false
+		}
+	}
+	return true
+}
